@@ -42,6 +42,16 @@ CHECKS.update({
    text="Bounded-exhaustive plus conformance: for every generated value (null, unknown and marked members at every depth) TLC checks the recorded Walk callback log against VisitSet (each member once, parents first, reported paths lead back), the identity Transform, UnmarkDeepWithPaths/MarkWithPaths round trip, Path.Apply on every path of length <= 2 over a 13-step menu (succeeds exactly when ValidPath), and every single-member replacement against ReplaceMember; PathSetSM.tla (Add/AddAllSteps/Remove/Has/Equal/Empty/Union/Intersection/Subtract/SymmetricDifference over hash-colliding paths) is replayed from simulated behaviours with the real set compared to the model after every step.",
    design_ref="DESIGN.md section 4 C19",
    note="Path application into unknown lists/maps is not decided (the property does not fix it). PathSet behaviours are simulated (sampled). Trusted: harness projection of paths and values, TLC."),
+ "C08": dict(
+   technique="TLA+ contract of conversion requests; TLC-enumerated (value, target type) pairs replayed into real Convert/GetConversion/GetConversionUnsafe; TLC trace validation (conformance, placeholder resolution, identity, idempotence, round trip, unknown/null pass-through with Admits, safe totality)",
+   text="Bounded-exhaustive: every generated value (known, null, refined unknown, nested unknown/null/marked members, marked null/unknown, DynamicVal, dynamically typed null) is converted to every target of a 32-type menu plus its own type and every single-position placeholder insertion; TLC judges each recorded request including a second application, the inverse conversion, the offered safe/unsafe conversions, and for unknown inputs that the result admits the conversion of every admitted concrete candidate.",
+   design_ref="DESIGN.md section 4 C08",
+   note="Reference results only for element-preserving structural conversions; number<->string spellings are judged by round trip. Trusted: harness projection, TLC."),
+ "C09": dict(
+   technique="TLA+ contract of unification results; TLC-enumerated lists of 1..3 types and sampled 4-lists replayed into real Unify/UnifyUnsafe with every returned conversion applied to generated values; TLC trace validation",
+   text="Bounded-exhaustive over a 30-type core for lists of length 1..2 (and 3 in the thorough tier; two positions from a 17-type subset in the quick tier) plus a seeded sample of 4-lists: TLC checks on every recorded call that each returned conversion yields values of the unified type, is absent exactly for inputs equal to the result (placeholder-free), never fails or panics in safe mode, is also offered by GetConversion in safe mode, that equal types unify to themselves and that safe success implies unsafe success.",
+   design_ref="DESIGN.md section 4 C09",
+   note="Which type is chosen is not judged. Trusted: harness projection, TLC."),
 })
 
 NOT_APPLICABLE = {}
